@@ -3,7 +3,7 @@ from lv import core, model, gen, drive
 from lv.props import common
 
 ID = 'C01'
-BUDGET = {'quick': 480, 'thorough': 16000}      # generated programs
+BUDGET = {'quick': 1600, 'thorough': 16000}      # generated programs
 RULE = ('programs from the typed core-fragment generator (facts with duplicates, '
         'multi-rule and | predicates, positional/named/partial/shorthand arguments, '
         '+ - *, ++, comparisons, boolean propositions, assignment, in, lists, records, '
